@@ -208,7 +208,7 @@ package riscv
 //@   ensures[rawJ]  err == nil && d_op(x) == 0x6f ==> argRaw.Rd == d_rd(x) && argRaw.Imm == int32(d_immJ(x))
 //@   ensures[nonnil] err == nil ==> arg != nil && argRaw != nil
 //@   ensures[rawrange] err == nil ==> argRaw.Rd < 32 && argRaw.Rs1 < 32 && argRaw.Rs2 < 32
-//@   ensures[asinv] foreach k in keys(_AOpContextTable) where isa(k) != 0 :: err == nil && as == k ==> isa_match(k, x)
+//@   ensures[asinv] foreach k in keys(_AOpContextTable) where isa(k) != 0 && isa_fmt(k) != 9 :: err == nil && as == k ==> isa_match(k, x)
 //@   property C17
 
 //@ spec imm_of(k abi.As, w uint32) int32 :=
